@@ -7,7 +7,7 @@ Model of `syne_tune/blackbox_repository/simulated_tabular_backend.py`
 (position of the configuration in the table is an input: the pandas index lookup is not
 modelled).
 -/
-namespace SyneTune
+namespace SyneTune.Backend
 
 /-- `BlackboxTabular`: `objectives_evaluations[config, seed, fidelity, objective]`,
 `fidelity_values`, and the position of `elapsed_time_attr` among the objectives. -/
@@ -179,4 +179,4 @@ def TB.run (A : Arith) (job : JobFn TabState) (s : TB) : List SOp → Except BEr
 
 def TB.init (cfg : SimCfg) (js : TabState) : TB := { cfg := cfg, js := js }
 
-end SyneTune
+end SyneTune.Backend
